@@ -1685,6 +1685,7 @@ var parts = []struct {
 	{"stream-error", 1, streamErr},
 	{"bind-initiator", 2, bindInit},
 	{"bind-receiver", 2, bindRecv},
+	{"bind-receiver-shared", 1, bindRecvShared},
 	{"after-failed-write", 2, afterFailedWrite},
 }
 
@@ -1744,7 +1745,7 @@ func Prop() *core.Prop {
 			if tier == "thorough" {
 				return 8000000
 			}
-			return 23000
+			return 24000
 		},
 		Run: runCase,
 		Witnesses: map[string]func(*core.Case){
@@ -1752,7 +1753,8 @@ func Prop() *core.Prop {
 			"hdr:bind:request-resource":                       witnessBindResource,
 			"panic:internal/stream.(*reader).Token:nil-deref": witnessStreamError,
 		},
-		Require: []string{"header_write_failed", "header_write_failed_at_restart", "header_write_failed_at_first_header", "headers_checked_after_failed_write", "sessions_after_failed_write_established",
+		Require: []string{"bind_receiver_feature_reused_groups", "bind_receiver_feature_reused_sessions", "bind_receiver_feature_reused_overlapping_sessions", "bind_receiver_fresh_resources",
+			"header_write_failed", "header_write_failed_at_restart", "header_write_failed_at_first_header", "headers_checked_after_failed_write", "sessions_after_failed_write_established",
 			"emit_direct", "emit_session_initiator", "emit_session_receiver", "emitted_headers_parsed", "lib2lib_established",
 			"accept_direct", "accept_session", "valid_headers_accepted", "invalid_headers_refused", "refused:version", "refused:no-id", "refused:name", "refused:content-ns",
 			"restart_cases", "restart_unchanged_established", "restart_changed_address_cases", "restart_changed_address_refused",
